@@ -73,6 +73,7 @@ class Ctx:
         self.ghost = {}
         self.facts = 0
         self.assumed = []
+        self.scoped = 0
 
     def start_sym(self, timeout_ms=None):
         self.mode = "sym"
@@ -128,6 +129,8 @@ class Ctx:
             return bool(c)
         t = self._feasible(cond)
         f = self._feasible(z3.Not(cond))
+        if t and f and self.scoped:
+            raise OutOfSubset("data-dependent branch inside a pointwise (comprehension) scope")
         if t and f:
             self.worklist.append(self.decisions[:] + [0])
             c = 1
@@ -141,6 +144,16 @@ class Ctx:
         self.pos += 1
         self.solver.add(cond if c else z3.Not(cond))
         return bool(c)
+
+    def push_scope(self, cond):
+        """local assumption (for evaluating a comprehension element at an arbitrary in-range index)"""
+        self.solver.push()
+        self.solver.add(cond)
+        self.scoped += 1
+
+    def pop_scope(self):
+        self.scoped -= 1
+        self.solver.pop()
 
     def choose(self, n):
         """Non-deterministic choice among n alternatives, all explored."""
